@@ -7,7 +7,10 @@ for every derived limit (MAX_SEND in {0, 350000, 350063, 350064, 350163, unset})
    the image left by a crash after the flat files ran two blocks past the committed tip), count
    around 0, the 2016 cap and the distance to the tip, cp around the last header and the tip;
  * scripthash.get_history / subscribe, each twice (cold and cached), for every history length;
- * a subscription whose history grows past the limit with the next block.
+ * a subscription whose history grows past the limit with the next block;
+ * a history read in flight across that block (made after it / made before and handed over
+   after it; with and without another cached history touched by the same block), then the same
+   requests again from the cache.
 Oracle: count = min(count, 2016, available) = len(hex)/160, max = 2016, headers and proofs
 equal the reference; a history reply is always the complete history; 'history too large' is
 returned when the history has more than max_send // 99 entries and never for fewer (exactly at
@@ -344,8 +347,99 @@ def case_history(case, res):
         res.sample({'config': config, 'limit': limit, 'lengths': LENGTHS}, cap=1)
 
 
+def outcome_bad(r, m, ref, limit):
+    '''Is reply r (to method m) right for a script whose complete confirmed history is ref?'''
+    n = len(ref)
+    if n == limit:                  # exactly at the derived limit either outcome is acceptable
+        if 'error' in r:
+            return None if 'too large' in str(r['error'].get('message')) else 'wrong-error'
+    elif n > limit:
+        if 'error' not in r:
+            return 'no-error-for-too-large-history'
+        return None if 'too large' in str(r['error'].get('message')) else 'wrong-error'
+    if 'error' in r:
+        return 'complete-history-refused'
+    if m == 'get_history':
+        got = [(e['tx_hash'], e['height']) for e in r['result']]
+        return None if got == ref else f'history-not-complete({len(got)} of {n})'
+    return None if r['result'] == status_of(ref) else 'status-not-of-complete-history'
+
+
+def case_inflight(case, res):
+    '''A history read in flight (held: made after; stalled: made before, handed over after)
+    across the block that makes a history grow and the notification that goes with it.'''
+    config, n, variant, m = case['config'], case['n'], case['variant'], case['method']
+    base, more = long_chain()
+    limit = CONFIGS[config] // 99
+    s = boot(config)
+    try:
+        c = s.connect()
+        c.call('server.version', ['x', '1.4.2'])
+        if case.get('other_cached'):
+            # some other script's history is in the cache and is touched by the block
+            c.call('blockchain.scripthash.get_history', [chain.scripthash_hex(chain.SCRIPTS['S'])])
+        script = script_for(n)
+        sh = chain.scripthash_hex(script)
+        rid = c.request('blockchain.scripthash.' + m, [sh])
+        while s.loop.step_ready():
+            pass
+        jobs = s.loop.pending_jobs()
+        if not jobs:
+            raise common.Broken('the history request did not start a read')
+        job = jobs[0]
+        if variant == 'hold':
+            job.held = True
+        else:
+            s.loop.run_job(job, deliver=False)
+        after = base + more[:1]
+        s.daemon.set_chain(after)
+        s.settle()
+        if s.db.state.height != len(after) - 1:
+            raise common.Broken('the block was not indexed while the read was in flight')
+        if c.reply(rid) is not None:
+            raise common.Broken('the request was answered although its read was kept back')
+        if variant == 'hold':
+            job.held = False
+        else:
+            job.deliver()
+        s.settle()
+        res.count('inflight_history_requests')
+        r1 = c.reply(rid)
+        refs = [ref_history(base, script), ref_history(after, script)]
+        bad = None
+        if r1 is None:
+            bad = 'never-answered'
+        else:
+            why = [outcome_bad(r1, m, ref, limit) for ref in refs]
+            if all(why):
+                bad = 'in-flight:' + why[1]
+        if not bad:
+            # at quiescence (and from the cache) only the current chain counts
+            for m2 in ('get_history', 'subscribe', 'get_history'):
+                r2 = c.call('blockchain.scripthash.' + m2, [sh])
+                why = outcome_bad(r2, m2, refs[1], limit)
+                if why:
+                    bad = f'afterwards:{m2}:{why}'
+                    break
+                hx = chain.script_hashX(script)
+                if 'error' in r2 and hx in c.session.hashX_subs:
+                    bad = 'failed-subscribe-left-a-subscription'
+                    break
+        if bad:
+            res.violation('history-read-across-a-block:' + bad.split('(')[0], dict(case),
+                          dict(case, limit=limit, entries_before=len(refs[0]),
+                               entries_after=len(refs[1]), problem=bad))
+        res.distinct('parts', 'inflight')
+        if s.check_tasks():
+            res.violation('server-task-died', case, dict(tasks=s.check_tasks()))
+    finally:
+        s.close()
+
+
 def run_case(case, res):
-    if case['kind'] == 'headers':
+    if case['kind'] == 'inflight':
+        case_inflight(case, res)
+    elif case['kind'] == 'headers':
         case_headers(case, res)
     elif case['kind'] == 'headers1':
         base, _ = long_chain()
@@ -366,6 +460,13 @@ def cases_for(tier):
     for config in CONFIGS:
         for order in ('hist-first', 'sub-first', 'mixed'):
             cases.append(dict(kind='history', config=config, order=order))
+    for config in CONFIGS:
+        for n in LENGTHS:
+            for variant in ('hold', 'stall'):
+                for m in ('get_history', 'subscribe'):
+                    for other in (False, True):
+                        cases.append(dict(kind='inflight', config=config, n=n, variant=variant,
+                                          method=m, other_cached=other))
     return cases
 
 
@@ -374,10 +475,11 @@ def run(tier, seed, started):
     res = farm(run_case, cases, seed=seed, chunk=1)
     c = res.counters
     if c.get('headers_requests', 0) < 500 or c.get('history_requests', 0) < 300 or \
-            not c.get('growth_steps'):
+            not c.get('growth_steps') or c.get('inflight_history_requests', 0) < 100:
         common.vacuous(PROP, res, f'vacuous C17 run: {c}')
     coverage = {
-        'evaluations': c['headers_requests'] + c['history_requests'] + c['growth_steps'],
+        'evaluations': c['headers_requests'] + c['history_requests'] + c['growth_steps']
+        + c['inflight_history_requests'],
         'distinct_nontrivial': len(res.sets.get('length_vs_limit', ())) + c['headers_requests'],
         'rule': ('headers: start in {0,1,tip-2..tip+2} x count in {0,1,2,2015,2016,2017,to-tip-1,'
                  'to-tip,to-tip+1,10^6} x cp in {0,last-1,last,last+1,tip,tip+1}; histories: 6 '
@@ -386,7 +488,9 @@ def run(tier, seed, started):
                  'subscribed history by two blocks; non-trivial = distinct (length - limit, method, '
                  'cached) + header requests'),
         'headers_requests': c['headers_requests'], 'history_requests': c['history_requests'],
-        'growth_steps': c['growth_steps'], 'exhaustive': True,
+        'growth_steps': c['growth_steps'],
+        'history_reads_in_flight_across_a_block': c['inflight_history_requests'],
+        'exhaustive': True,
     }
     assumptions = ['chain of 2,020 blocks indexed once per worker through the real pipeline and '
                    'copied per run', 'SessionManager raises MAX_SEND to at least 350000']
